@@ -59,7 +59,8 @@ Definition kind_quiet (k : bstr) : bool := mem_b k safe_kinds || mem_b k table_k
 Definition loud_vars (vars : list (bstr * bstr * bstr)) : list (bstr * bstr * bstr) :=
   filter (fun v => let '(_, _, k) := v in negb (kind_quiet k)) vars.
 Definition reviewed_loud_vars : list (bstr * bstr * bstr) := Eval vm_compute in [
-  (* the verification hook (build tag verif): assigned by the harness before any render starts *)
+  (* the verification hooks (build tag verif): assigned by the harness before any render starts *)
+  (b "soyhtml", b "VerifCallObserver", b "func");
   (b "soyhtml", b "VerifUnboundObserver", b "func")
 ].
 
@@ -70,8 +71,11 @@ Definition command_dirs : list bstr := Eval vm_compute in [b "soyweb"; b "soymsg
 Definition k_init : bstr := Eval vm_compute in b ":init".
 (* (package of the variable, variable, package:function, kind): in an init function (before main,
    one goroutine), or in a command *)
+(* ... or the setter of a verification hook (files under build tag verif only: /repo e78c363's
+   (Tofu).VerifSetCallObserver), called by the harness before any render starts *)
+Definition hook_vars : list bstr := Eval vm_compute in map (fun v => let '(_, n, _) := v in n) reviewed_loud_vars.
 Definition write_in_init (w : bstr * bstr * bstr * bstr) : bool :=
-  let '(d, _, f, _) := w in ends_with k_init f || mem_b d command_dirs.
+  let '(d, v, f, _) := w in ends_with k_init f || mem_b d command_dirs || mem_b v hook_vars.
 
 (* ---- methods called on package-level variables ---- *)
 (* the methods seen at review time: all read-only on their receiver (regexp, replacer) or
